@@ -1,5 +1,6 @@
 import Pcore.Proofs.LatSoundMain
 import Pcore.Proofs.LatSfh
+import Pcore.Proofs.LatSoundTyp
 set_option linter.unusedSimpArgs false
 /-!
 # C01 — Assignability is sound: what is assignable never admits a foreign instance
@@ -26,8 +27,11 @@ Full statement / proved / missing
   the proved fragment of transitivity (`Ty.TF`, see C03: soundness for `Type[..]` IS transitivity `X ⊒ Y ⊒ u`, and is obtained from
   `C03_trans_partial`); types used as values are then well-formed members of `Ty.TF`, and container lengths fit an int64 as Go's do
   (`Val.TyOK`).
+* `C01_sound_type_receiver` — PROVED (corollary of C03 stage 4, `C03_trans_alias_partial`): soundness of the receiver `Type[x]` for every
+  `x` of `Ty.TA` — Struct (rule off), Iterable, Data / RichData inside `x` — against every right-hand type of that fragment.
 * missing, and why:
-  - `Type[T]` with Struct / Data inside `T` (outside the proved fragment of transitivity).  `Iterable`'s instance rule asks an assignability
+  - `Type[T]` with Struct / Iterable / Data inside `T` NESTED inside another receiver (Array[Type[Struct…]] …): `Ty.Frag` of the main
+    induction still asks `T ∈ Ty.TF`; at the top (`Type[x]` itself the receiver) it is `C01_sound_type_receiver`.  `Iterable`'s instance rule asks an assignability
     question about an INFERRED type and is genuinely unsound in the code: witnesses
     `C01_full_fails_iterable_elem` (inferred element type wider than any Variant member; known finding C01-iterable-inferred-elem)
     and `C01_full_fails_iterable_binary` (Iterable accepts Binary, whose values are not Iterable instances; C01-iterable-binary).
@@ -157,5 +161,29 @@ example : (Ty.struct [("a", false, .int Rng.all)]).Plain ∧ (Ty.hash .str (.int
   · simp [inst, instEntries, Rng.contains, Rng.all, I64.min, I64.max]
   · simp [inst, instStruct, hashGetW, keyIsStr]
   · simp [asg, asgRecv, sameNullary]
+
+/-! ### `Type[T]` as the receiver, with Struct (rule off) / Iterable / Data / RichData inside `T` (from C03 stage 4) -/
+/-- Soundness of the receiver `Type[x]` for EVERY `x` of the stage-4 fragment of transitivity `Ty.TA` (all types but Unit; Struct with the
+    rule off): whatever `Type[x]` accepts — after the right-hand decomposition a `Type[y]` with `x ⊒ y`, under Variant / NotUndef —
+    has only instances of `Type[x]`.  The right-hand type `b` ranges over the whole fragment; type values `u` inside `v` lie in the
+    fragment and are well-formed.  (`C01_sound_partial` has `Type[T]` only for `T` in `Ty.TF`: no Struct, Iterable, alias inside.) -/
+theorem C01_sound_type_receiver (cfg : Cfg) (sfh : Bool) (hl : LowerLen cfg) (x b : Ty) (v : Val)
+    (fx : x.TA sfh) (fb : b.TA sfh) (wx : Ty.WF cfg x) (wb : Ty.WF cfg b) (tv : ∀ u, v = .typ u → u.TA sfh ∧ Ty.WF cfg u)
+    (h : asg cfg sfh (.typ x) b = true) (hi : inst cfg sfh b v = true) : inst cfg sfh (.typ x) v = true :=
+  typ_recv_sound cfg sfh hl x fx wx b.w b (Nat.le_refl _) fb wb v tv h hi
+
+/-- non-vacuity: Type[Struct[{a => Data}]] ⊒ Variant[Type[Struct[{a => Integer}]], Type[Struct[{a => Array[String]}]]], and the type
+    value Struct[{a => Integer[0,9]}] is an instance of the Variant -/
+example (cfg : Cfg) :
+    (Ty.struct [("a", false, .data)]).TA false ∧
+    (Ty.variant [.typ (.struct [("a", false, .int Rng.all)]), .typ (.struct [("a", false, .array .str Rng.pos)])]).TA false ∧
+    asg cfg false (.typ (.struct [("a", false, .data)]))
+      (.variant [.typ (.struct [("a", false, .int Rng.all)]), .typ (.struct [("a", false, .array .str Rng.pos)])]) = true ∧
+    inst cfg false (.variant [.typ (.struct [("a", false, .int Rng.all)]), .typ (.struct [("a", false, .array .str Rng.pos)])])
+      (.typ (.struct [("a", false, .int ⟨0, 9⟩)])) = true := by
+  refine ⟨by simp [Ty.TA], by simp [Ty.TA], ?_, ?_⟩
+  · simp [asg, asgRecv, asgAllR, sameNullary, structAll, structMember, distinctCount, isStringFamily, floatAll, Rng.sub, Rng.pos,
+      Rng.all, I64.max, I64.min]
+  · simp [inst, instAny, asg, asgRecv, sameNullary, structAll, structMember, distinctCount, Rng.sub, Rng.all, I64.max, I64.min]
 
 end Pcore.Lat
